@@ -694,7 +694,27 @@ func runC09Config(c *Ctx, named *types.Named) {
 		if len(del.Params) >= 2 {
 			node = del.Params[1]
 		}
+		// the search may have been extracted into an unexported helper that receives the element
+		searchFn := del
 		for _, b := range del.Blocks {
+			for _, ins := range b.Instrs {
+				call, ok := ins.(*ssa.Call)
+				if !ok {
+					continue
+				}
+				h := staticCallee(&call.Call)
+				if h == nil || recvNamed(h) != named || h.Object() == nil || h.Object().Exported() || len(naturalLoops(h)) == 0 {
+					continue
+				}
+				for ai, a := range call.Call.Args {
+					if a == node && ai < len(h.Params) {
+						searchFn, node = h, h.Params[ai]
+						c.Funcs[fnName(h)] = true
+					}
+				}
+			}
+		}
+		for _, b := range searchFn.Blocks {
 			for _, ins := range b.Instrs {
 				bo, ok := ins.(*ssa.BinOp)
 				if !ok || (bo.Op != token.EQL && bo.Op != token.NEQ) {
@@ -702,7 +722,7 @@ func runC09Config(c *Ctx, named *types.Named) {
 				}
 				// comparisons inside loops over the map
 				inLoop := false
-				for _, l := range naturalLoops(del) {
+				for _, l := range naturalLoops(searchFn) {
 					if l.Body[b] {
 						inLoop = true
 					}
